@@ -211,19 +211,31 @@ func (k Keeper) EscrowReporterStake(ctx context.Context, reporterAddr sdk.AccAdd
 		}
 
 		if !remaining.IsZero() {
-			dstVAl, err := k.getDstValidator(ctx, delAddr, valAddr)
+			// the delegator may have redelegated from this validator to several others: follow every destination
+			dstVals, err := k.getDstValidators(ctx, delAddr, valAddr)
 			if err != nil {
 				return err
 			}
-			_, err = k.undelegate(ctx, delAddr, dstVAl, math.LegacyNewDecFromInt(remaining))
-			if err != nil {
-				return err
+			for j, dstVAl := range dstVals {
+				left, err := k.undelegate(ctx, delAddr, dstVAl, math.LegacyNewDecFromInt(remaining))
+				if err != nil {
+					return err
+				}
+				if j == len(dstVals)-1 {
+					left = math.ZeroInt() // as before, whatever is still missing is booked on the last destination
+				}
+				if taken := remaining.Sub(left); taken.IsPositive() {
+					disputeTokens = append(disputeTokens, &types.TokenOriginInfo{
+						DelegatorAddress: del.DelegatorAddress,
+						ValidatorAddress: dstVAl,
+						Amount:           taken,
+					})
+				}
+				remaining = left
+				if remaining.IsZero() {
+					break
+				}
 			}
-			disputeTokens = append(disputeTokens, &types.TokenOriginInfo{
-				DelegatorAddress: del.DelegatorAddress,
-				ValidatorAddress: dstVAl,
-				Amount:           remaining,
-			})
 		}
 	}
 
@@ -231,22 +243,26 @@ func (k Keeper) EscrowReporterStake(ctx context.Context, reporterAddr sdk.AccAdd
 	return k.DisputedDelegationAmounts.Set(ctx, hashId, types.DelegationsAmounts{TokenOrigins: disputeTokens, Total: amt})
 }
 
-// get the destination validator for a redelegated delegator, used for chasing after tokens that were redelegated to a different validator
-func (k Keeper) getDstValidator(ctx context.Context, delAddr sdk.AccAddress, valAddr sdk.ValAddress) (sdk.ValAddress, error) {
+// get the destination validators of a delegator's redelegations away from a validator, used for chasing after tokens that were redelegated
+func (k Keeper) getDstValidators(ctx context.Context, delAddr sdk.AccAddress, valAddr sdk.ValAddress) ([]sdk.ValAddress, error) {
 	reds, err := k.stakingKeeper.GetRedelegationsFromSrcValidator(ctx, valAddr)
 	if err != nil {
 		return nil, err
 	}
+	var dsts []sdk.ValAddress
 	for _, red := range reds {
 		if strings.EqualFold(red.DelegatorAddress, delAddr.String()) {
-			valAddr, err := sdk.ValAddressFromBech32(red.ValidatorDstAddress)
+			dst, err := sdk.ValAddressFromBech32(red.ValidatorDstAddress)
 			if err != nil {
 				return nil, err
 			}
-			return valAddr, nil
+			dsts = append(dsts, dst)
 		}
 	}
-	return nil, errors.New("redelegation to destination validator not found")
+	if len(dsts) == 0 {
+		return nil, errors.New("redelegation to destination validator not found")
+	}
+	return dsts, nil
 }
 
 // chases after unbonding delegations in order to get tokens that are part a new dispute
